@@ -467,6 +467,11 @@ def run(ctx):
     def _tok(k, p):
         if re.search(r"args\.find\((\w+(@\d+)?|\(\*\w+\))\)", k) and "args.end()" in k and p is True:
             return ["missing"]
+        # the count / contains spellings of 'not among the arguments'
+        if re.match(r"^\((0 == args\.count\([^()]*(\(\*\w+\))?[^()]*\)|args\.count\([^()]*(\(\*\w+\))?[^()]*\) == 0)\)$", k) and p is True:
+            return ["missing"]
+        if re.match(r"^args\.(count|contains)\([^()]*(\(\*\w+\))?[^()]*\)$", k) and p is False:
+            return ["missing"]
         if UNK.search(k) and "argValueFillingFuncs_.end()" in k and p is True:
             return ["unknown"]
         if re.sub(r"@\d+$", "", k) in res_names and p is False:
